@@ -15,8 +15,8 @@ class C15(Prop):
     needs = ('cells', 'svg')
     rule = 'rows of drawing content with 0..3 quoted segments at arbitrary columns (segment content over drawing, markup, multi-byte and double-width characters, no quote or backslash) on multi-row diagrams; each item also renders the input with every quoted region overwritten by spaces of its column width; non-trivial when there is at least one segment'
     level_text = ('Theorems C15_quoted_segment (for every line pre "body" post the text is lifted out verbatim at the opening quote and the drawn row is pre ++ spaces ++ post), C15_rest_as_if_blanked (cells equal those of the blanked line), '
-                  'C15_blank_width_is_region_width (for every line, double-width included). One segment per row is proved; 0..3 segments are decided by correspondence and oracle (C15_full stated).')
-    level_note = 'partial: several segments on one row are covered by the text-stage correspondence and the oracle; the theorem covers one segment per row with arbitrary other content'
+                  'C15_blank_width_is_region_width (for every line, double-width included), C15_any_number_of_segments / C15_everything_else_as_if_blanked (a line with any number of quoted segments: every body lifted out verbatim, in order, at the column of its opening quote; the cells drawn are those of the line with every region overwritten by blanks of its column width). For all lines whose bodies have no backslash.')
+    level_note = 'bodies with an escaped quote (backslash) and unbalanced quotes are covered by the text-stage correspondence and the oracle'
     def make(self, gen, rows_spec):
         """rows_spec: list of rows; a row is a list of ('t', text) / ('q', body) pieces"""
         main = []; blank = []; quoted = []
